@@ -124,6 +124,14 @@ def main():
         if pid not in CHECKS:
             continue
         cat, text, note, tech, ref = CHECKS[pid]
+        # as-built descriptions maintained next to the checks override the texts above
+        ov = os.path.join(os.path.dirname(os.path.abspath(__file__)), "manifest_texts", pid + ".json")
+        if os.path.exists(ov):
+            try:
+                o = json.load(open(ov))
+                text, note, tech = o.get("text", text), o.get("note", note), o.get("technique", tech)
+            except ValueError:
+                pass
         checks.append({
             "property_id": pid,
             "quick_cmd": "./check %s --tier quick" % pid,
